@@ -182,14 +182,14 @@ func renew(ca *fixture.CA, cert *x509.Certificate, rekey bool) (out string, exp,
 // Authority.RemoveProvisioner. A certificate issued before the migration (its database record names
 // the ca.json id, which no longer resolves) and one issued after it (record names the database id)
 // are renewed after each step. These are plain gate lines.
-func adminPhases(out *common.Out, p prepared, ca *fixture.CA) {
+func adminPhases(out *common.Out, p prepared, ca *fixture.CA) *fixture.CA {
 	js, _ := json.Marshal(p.c)
 	tail := " case=x" + hex.EncodeToString(js)
 	ctx := context.Background()
 	adb := ca.Auth.GetAdminDatabase()
 	if adb == nil {
 		out.Case("gate mode=coded op=renew rev=no db=gone ext=gone nyv=0 exp=0 phase=admin"+tail, "setup-failed:noadmindb")
-		return
+		return ca
 	}
 	provs, err := adb.GetProvisioners(ctx)
 	var lp *linkedca.Provisioner
@@ -200,12 +200,12 @@ func adminPhases(out *common.Out, p prepared, ca *fixture.CA) {
 	}
 	if err != nil || lp == nil {
 		out.Case("gate mode=coded op=renew rev=no db=gone ext=gone nyv=0 exp=0 phase=admin"+tail, "setup-failed:noprov")
-		return
+		return ca
 	}
 	after, err := issue(ca, p.key, false)
 	if err != nil {
 		out.Case("gate mode=coded op=renew rev=no db=gone ext=gone nyv=0 exp=0 phase=admin"+tail, "setup-failed:sign-after-migration")
-		return
+		return ca
 	}
 	renewBoth := func(phase, dbOld, dbNew, ext string) {
 		for k, cert := range []*x509.Certificate{p.valid, p.expiring, after} {
@@ -235,25 +235,42 @@ func adminPhases(out *common.Out, p prepared, ca *fixture.CA) {
 	lp.Claims.DisableRenewal, lp.Claims.AllowRenewalAfterExpiry = !cur, true
 	if err := ca.Auth.UpdateProvisioner(ctx, lp); err != nil {
 		out.Case("gate mode=coded op=renew rev=no db=gone ext=gone nyv=0 exp=0 phase=admin"+tail, "setup-failed:update")
-		return
+		return ca
 	}
 	ctl := fmt.Sprintf("ctl:%s1n", common.B(!cur))
 	renewBoth("updated", "gone", ctl, ctl)
+	// 1b. an update that carries no claims object: the provisioner falls back to the authority-level
+	// claims - now, and after a restart (what the admin database stored is what is loaded back)
+	lp.Claims = nil
+	if err := ca.Auth.UpdateProvisioner(ctx, lp); err != nil {
+		out.Case("gate mode=coded op=renew rev=no db=gone ext=gone nyv=0 exp=0 phase=admin"+tail, "setup-failed:update-noclaims")
+		return ca
+	}
+	gctl := fmt.Sprintf("ctl:%s%sn", common.B(p.c.GD == "1"), common.B(p.c.GA == "1"))
+	renewBoth("unclaimed", "gone", gctl, gctl)
+	if re, err := ca.Restart(); err != nil {
+		out.Case("gate mode=coded op=renew rev=no db=gone ext=gone nyv=0 exp=0 phase=admin"+tail, "setup-failed:restart-after-update")
+		return ca
+	} else {
+		ca = re
+	}
+	renewBoth("unclaimed-restarted", "gone", gctl, gctl)
 	// 2. and back, plus a rename: the record (id) still resolves, the extension (name) no longer does
-	lp.Claims.DisableRenewal, lp.Claims.AllowRenewalAfterExpiry = cur, false
+	lp.Claims = &linkedca.Claims{DisableRenewal: cur, AllowRenewalAfterExpiry: false}
 	lp.Name = provName + "-renamed"
 	if err := ca.Auth.UpdateProvisioner(ctx, lp); err != nil {
 		out.Case("gate mode=coded op=renew rev=no db=gone ext=gone nyv=0 exp=0 phase=admin"+tail, "setup-failed:rename")
-		return
+		return ca
 	}
 	ctl = fmt.Sprintf("ctl:%s0n", common.B(cur))
 	renewBoth("renamed", "gone", ctl, "gone")
 	// 3. remove it
 	if err := ca.Auth.RemoveProvisioner(ctx, lp.Id); err != nil {
 		out.Case("gate mode=coded op=renew rev=no db=gone ext=gone nyv=0 exp=0 phase=admin"+tail, "setup-failed:remove")
-		return
+		return ca
 	}
 	renewBoth("removed", "gone", "gone", "gone")
+	return ca
 }
 
 func fixedCases() []Case {
@@ -399,7 +416,7 @@ func main() {
 			continue
 		}
 		emit(p, "restarted", re)
-		adminPhases(out, p, re)
+		re = adminPhases(out, p, re)
 		re.Auth.Shutdown()
 		os.RemoveAll(dir)
 	}
